@@ -90,13 +90,19 @@ def py_exhausts(y0, b, trace):
     return None
 
 
+# strategies that keep state between the cycles of a run (caches keyed by frequencies / distances): they get more
+# and longer runs, because a stale cache only shows after several cycles on one object
+STATEFUL = {"EpistemicUncertaintySampling[precompute]": 14, "EpistemicUncertaintySampling[pwc]": 2, "ProbCover": 4}
+
+
 def explore(ctx, per_spec, sizes):
     rng = ctx.rng
     lines, checks = [], []
     for spec in pool_specs():
-        for _ in range(per_spec):
+        mult = STATEFUL.get(spec.name, 1)
+        for _ in range(per_spec * mult):
             nrs = np.random.RandomState(rng.randrange(2**31 - 1))
-            n = rng.randint(*sizes)
+            n = rng.randint(*sizes) if mult == 1 else rng.randint(sizes[1] + 2, sizes[1] + 16)
             flavour = rng.choice(_pool.FLAVOURS)
             r = rng.random()
             n_lab = 0 if r < 0.15 else (n - 1 if r < 0.25 else rng.randint(0, n - 1))
